@@ -402,7 +402,8 @@ def _mk_emitted(family):
         app = Application(_emit_services(got), TNS, name='VApp', in_protocol=inp, out_protocol=outp)
         wsgi = WsgiApplication(app)
         schema = build_schema(app)
-        meth = c.choose(['prims', 'struct', 'arrays', 'nothing', 'bare', 'outbare', 'shared', 'facets', 'numbers'], 'method')
+        meth = c.choose(['prims', 'struct', 'arrays', 'nothing', 'bare', 'outbare', 'shared', 'facets', 'numbers', 'produce',
+                         'renamed'], 'method')
         d = app.interface.service_method_map['{%s}%s' % (TNS, meth)][0]
         if meth == 'prims':
             vals = c01.PRIM_VALUES[c.choose(list(range(len(c01.PRIM_VALUES))), 'values')]
@@ -417,6 +418,10 @@ def _mk_emitted(family):
             args = [c.choose([0, 1, 2], 'values')]
         elif meth == 'numbers':
             args = [c.choose(list(range(len(NUMBERS))), 'values')]
+        elif meth == 'produce':
+            args = [c.choose(list(range(len(c01.PRIM_VALUES))), 'values')]
+        elif meth == 'renamed':
+            args = [c01.renamed_values()[c.choose([0, 1, 2, 3], 'values')]]
         else:
             args = []
         with_header = family != 'xml' and meth == 'prims' and c.choose([False, True], 'with_header')
@@ -564,7 +569,7 @@ def _mk_requests(family):
         if not c.concrete:
             c.interp.prefixes = c.interp.prefixes + (__name__,)
         svc = RemoteService(Capture, 'http://loop/', app)
-        meth = c.choose(['prims', 'struct', 'arrays', 'take', 'nothing'], 'method')
+        meth = c.choose(['prims', 'struct', 'arrays', 'take', 'nothing', 'renamed'], 'method')
         if meth == 'prims':
             vals = c01.PRIM_VALUES[c.choose(list(range(len(c01.PRIM_VALUES))), 'values')]
             args = [vals[k] for k, _ in c01.PRIMS]
@@ -574,6 +579,8 @@ def _mk_requests(family):
             args = list(c01.ARRAY_VALUES[c.choose(list(range(len(c01.ARRAY_VALUES))), 'values')])
         elif meth == 'take':
             args = [facet_values()[c.choose([0, 1, 2], 'values')]]
+        elif meth == 'renamed':
+            args = [c01.renamed_values()[c.choose([0, 1, 2, 3], 'values')]]
         else:
             args = []
         out = c.run(getattr(svc, meth), *args)
@@ -982,3 +989,30 @@ def _mk_polymorphic(family):
 
 for _f in ('xml', 'soap11', 'soap12'):
     _mk_polymorphic(_f)
+
+
+@obligation('C06.sub_ns', targets=['spyne.interface.xml_schema.model:complex_add', 'spyne.protocol.xml:XmlDocument.gen_members_parent'],
+            bounded="one member with sub_ns, XmlDocument",
+            desc="a member declared to travel in another namespace (sub_ns) is published in that namespace: the response "
+                 "Spyne emits for it is valid against the generated schema")
+def sub_ns(c):
+    class NsHolder(ComplexModel):
+        __namespace__ = TNS
+        here = Integer
+        there = Integer(sub_ns='verif.c06.other')
+
+    class NSvc(ServiceBase):
+        @rpc(_returns=NsHolder)
+        def g(ctx):
+            return NsHolder(here=1, there=2)
+    app = Application([NSvc], TNS, name='VApp', in_protocol=XmlDocument(), out_protocol=XmlDocument())
+    schema = build_schema(app)
+    out, seen, resp = _post(c, WsgiApplication(app), ('<tns:g xmlns:tns="%s"/>' % TNS).encode())
+    c.check('callable_returns', out.returned and bool(seen) and seen[0].startswith('200'), detail=(repr(out), seen))
+    if not (out.returned and seen and seen[0].startswith('200')):
+        return
+    headers, payload = _payloads('xml', resp)
+    ok, errs = _validate(schema, payload)
+    # open known finding: complex_add ignores sub_ns (the line is commented out), the serializer honours it
+    c.known_region('C06-sub-ns-not-published', True)
+    c.check('response_valid_against_generated_schema', ok, detail=(errs, etree.tostring(payload)[:400]))
